@@ -101,7 +101,7 @@ type FatGen struct {
 	NoAlias  bool
 	NoNonASCII bool
 	// ext4 flavour
-	Ext4     bool // no case-varied lookups, no truncating open, rename only as a refusal, symlinks and attributes
+	Ext4     bool // no case-varied lookups, fewer truncating opens, rename only as a refusal, symlinks and attributes
 	Sizes    []int
 }
 
@@ -274,9 +274,9 @@ func (g *FatGen) Next(d *fsdrive.Driver) fsdrive.Op {
 			return fsdrive.Op{Kind: "append", Path: lookupSpelling(p), Len: g.sizeClass(), DSeed: r.Uint64()}
 		case w < 58:
 			if g.Ext4 {
-				// symlinks and attribute changes take the place of the truncating open
+				// symlinks and attribute changes take the place of most truncating opens
 				all := m.Paths()
-				switch r.Intn(4) {
+				switch r.Intn(5) {
 				case 0:
 					dir := pickDir()
 					p := joinP(dir, fmt.Sprintf("link%d", r.Intn(1000)))
@@ -311,7 +311,7 @@ func (g *FatGen) Next(d *fsdrive.Driver) fsdrive.Op {
 					}
 					ids := []int{0, 1, 1000, 65535, 65536, 1 << 31, (1 << 32) - 1}
 					return fsdrive.Op{Kind: "chown", Path: p, UID: gen.Pick(r, ids), GID: gen.Pick(r, ids)}
-				default:
+				case 3:
 					if len(all) == 0 {
 						continue
 					}
